@@ -260,7 +260,7 @@ VARIANTS = [
     V( 'routetext-try-asserts-list-only', DEVICE, "assert isinstance( route_path, (type(None),bool,int,list) ), \\\n \"route_path invalid; must resolve to null/0/false or list, not: %r\" % ( route_path, )", "assert isinstance( route_path, list ), \\\n                \"route_path invalid; must resolve to list, not: %r\" % ( route_path, )", fires=[ 'T-ROUTETEXT' ], why='defect AN' ),
     V( 'pathstop-equivalent', DEVICE, "or not attribute #   or no Attribute desired (must return None)", "or attribute in ( False, None, 0 ) or not attribute", silent=[ 'D-PATHSTOP' ] ),
     V( 'keypass-normalised', MAIN, "def __setitem__( self, key, value ):\n super( Attribute_print, self ).__setitem__( key, value )", "def __setitem__( self, key, value ):\n            if isinstance( key, slice ):\n                key	= slice( *key.indices( len( self )))\n            super( Attribute_print, self ).__setitem__( key, value )", fires=[ 'K-KEYPASS' ] ),
-    V( 'route-checks-outside-try', UCMM, "rsp,ela = client.await_response( conn, timeout=timeout )\n assert rsp, \\", "rsp,ela	= client.await_response( conn, timeout=timeout )\n                                assert True, \\", fires=[ 'P-ROUTE' ] ),
+    V( 'route-checks-outside-try', UCMM, "rsp,ela = client.await_response( conn, timeout=timeout )\n assert rsp, \\", "rsp,ela	= client.await_response( conn, timeout=timeout )\n                                    assert True, \\", fires=[ 'P-ROUTE' ] ),
     V( 'send-buffered', MAIN, "try:\n conn.send( rpy )\n except socket.error as exc:\n log.detail( \"Session ended (client abandoned): %s\", exc )\n stats['eof'] = True\n if data.response.enip.status:", "if source.peek() is None:\n                            try:\n                                conn.send( rpy )\n                            except socket.error as exc:\n                                log.detail( \"Session ended (client abandoned): %s\", exc )\n                                stats['eof'] = True\n                        if data.response.enip.status:", fires=[ 'P-ONE' ] ),
     V( 'client-data-every-call', CLIENT, "if self.engine is None:\n self.data = dotdict( peer=addr )\n self.engine = self.frame.run( source=self.source, data=self.data )", "self.data		= dotdict( peer=addr )\n            if self.engine is None:\n                self.engine	= self.frame.run( source=self.source, data=self.data )", fires=[ 'P-ACT' ] ),
     V( 'write-elementwise', LOGIX, "attribute[beg:end] = data[context].data\n data.status = 0x00", "for i,v in zip( range( beg, end ), data[context].data ):\n                    attribute[i]	= v\n                data.status		= 0x00", fires=[ 'R-SNAPSHOT' ] ),
@@ -306,8 +306,8 @@ VARIANTS = [
     V( 'frag-read-from-start', LOGIX, "recs = attribute[beg:end]", "recs			= attribute[0:end]", fires=[ 'F-STATUS' ] ),
     # ---- C18 history replay structure (H-*)
     V( 'hparse-comment-kept-at-eof', HFILES, "l = None\n continue # blank or comment", "continue # blank or comment", fires=[ 'H-PARSE' ] ),
-    V( 'hparse-for-else-raise', HFILES, "l = None\n continue # blank or comment\n break\n if not l:\n raise StopIteration( \"Empty file\" )", "continue # blank or comment\n        break\n    else:\n        raise StopIteration( \"Empty file\" )\n    if not l:\n        raise StopIteration( \"Empty file\" )", silent=[ 'H-PARSE', 'T-RECORD' ] ),
-    V( 'hparse-count-after-skip', HFILES, "n += 1\n l = l.decode( encoding or 'ascii' ).lstrip()\n if not l or l.startswith( '#' ):\n l = None\n continue # blank or comment", "l			= l.decode( encoding or 'ascii' ).lstrip()\n        if not l or l.startswith( '#' ):\n            l			= None\n            continue # blank or comment\n        n		       += 1", fires=[ 'H-PARSE' ] ),
+    V( 'hparse-for-else-raise', HFILES, "l = None\n continue # blank or comment (which, alone, may hold text not in the expected encoding)\n l = l.decode( encoding or 'ascii' )\n break\n if not l:\n raise StopIteration( \"Empty file\" )", "continue # blank or comment\n        l			= l.decode( encoding or 'ascii' )\n        break\n    else:\n        raise StopIteration( \"Empty file\" )\n    if not l:\n        raise StopIteration( \"Empty file\" )", silent=[ 'H-PARSE', 'T-RECORD' ] ),
+    V( 'hparse-count-after-skip', HFILES, "n += 1\n l = l.lstrip()\n if not l or l.startswith( b'#' ):\n l = None\n continue # blank or comment (which, alone, may hold text not in the expected encoding)", "l			= l.lstrip()\n        if not l or l.startswith( b'#' ):\n            l			= None\n            continue # blank or comment\n        n		       += 1", fires=[ 'H-PARSE' ] ),
     V( 'hfiles-lexicographic', HFILES, "if n == self.name or n.startswith( self.name + '.' )), key=natural ):", "if n == self.name or n.startswith( self.name + '.' ))):", fires=[ 'H-FILES' ] ),
     V( 'hfiles-reversed', HFILES, "if n == self.name or n.startswith( self.name + '.' )), key=natural ):", "if n == self.name or n.startswith( self.name + '.' )), key=natural, reverse=True ):", fires=[ 'H-FILES' ] ),
     V( 'hfiles-stopiteration-break', HFILES, "if fd:\n fd.close()\n continue\n except Exception as exc:", "break\n                except Exception as exc:", fires=[ 'H-FILES' ] ),
@@ -428,8 +428,8 @@ VARIANTS = [
     V( 'validate-plain-write-completeness-dropped', LOGIX, "assert data.service == self.WR_FRG_RPY or endmax == endactual, \\\n \"Attribute %s Write Tag of %d elements carries %d\" % (\n attribute, elm, len( data[context].data ))", "pass", fires=[ 'D-VALIDATE' ], why='defect BC reverted' ),
     V( 'validate-plain-write-completeness-by-len', LOGIX, "assert data.service == self.WR_FRG_RPY or endmax == endactual, \\", "assert data.service == self.WR_FRG_RPY or len( data[context].data ) == elm, \\", silent=[ 'D-VALIDATE' ] ),
     V( 'resolve-lone-path-unprotected', DEVICE, "try:\n ids = resolve( targetpath.path )\n target = lookup( *ids )\n except Exception as exc:\n ids,target = (None,None,None),None", "ids			= resolve( targetpath.path )\n            target		= lookup( *ids )", fires=[ 'S-RESOLVE' ], why='defect H reverted' ),
-    V( 'lone-failure-handed-on', DEVICE, "if ( target is None or not len( data.request.get( 'input', b'' ))\n or not isinstance( sys.exc_info()[1], Exception )):\n raise", "raise", fires=[ 'S-LONE' ], why='defect BA reverted' ),
-    V( 'route-table-filled-without-lock', UCMM, "with self.route_lock:\n route = self.route_conn.get( target )\n if route is None:", "if True:\n                                route		= self.route_conn.get( target )\n                                if route is None:", fires=[ 'P-ROUTE' ], why='defect BD reverted ( creation )' ),
+    V( 'lone-failure-handed-on', DEVICE, "if ( answerer is None or not len( data.request.get( 'input', b'' ))\n or not isinstance( sys.exc_info()[1], Exception )):\n raise", "raise", fires=[ 'S-LONE' ], why='defect BA reverted' ),
+    V( 'route-table-filled-without-lock', UCMM, "with self.route_lock:\n route = self.route_conn.get( target )\n if route is None:", "if True:\n                                    route		= self.route_conn.get( target )\n                                    if route is None:", fires=[ 'P-ROUTE' ], why='defect BD reverted ( creation )' ),
     V( 'route-handler-closes-whatever-is-registered', UCMM, "with self.route_lock:\n if route is not None and self.route_conn.get( target ) is route:\n self.route_conn.pop( target )\n if route is not None:\n route.close()", "failed	= self.route_conn.pop( target, None )\n                            if failed is not None:\n                                failed.close()", fires=[ 'P-ROUTE' ], why='defect BD reverted ( handler )' ),
     V( 'allowed-struct-row-dropped', LOGIX, "STRUCT.tag_type: (),", "", fires=[ 'T-ALLOWED' ], why='STRUCT write refused: reverted' ),
     V( 'validate-resolve-element-first-only', DEVICE, "if 'element' in term:\n element.append( term['element'] )", "if 'element' in term:\n            element.append( term['element'] )\n            break", fires=[ 'D-VALIDATE' ], why='multi-dimensional index fix reverted' ),
@@ -456,7 +456,24 @@ VARIANTS = [
     V( 'atomic-rest-by-truthiness', DOT, "if rest is not None:\n if not rest:\n # A trailing '.' names nothing (as for lookup)\n raise KeyError( 'cannot set \"%s\" in \"%s\" from key \"%s\"' % ( rest, mine, key ))", "if rest:", fires=[ 'D-ATOMIC' ], why='defect BM (trailing dot) reverted' ),
     V( 'atomic-level-created-first', DOT, "target = dotdict()\n target[rest] = value\n super( dotdict_base, self ).__setitem__( mine, target )\n return", "target          = super( dotdict_base, self ).setdefault( mine, dotdict() )", fires=[ 'D-ATOMIC' ], why='defect BM (level left behind) reverted' ),
     V( 'atomic-del-through-leaf', DOT, "if not isinstance( target, dotdict_base ):\n # A path leading through something that is not a level names nothing (as for lookup)\n raise KeyError( 'cannot del \"%s\" in \"%s\" (%r)' % ( rest, mine, target ))", "pass", fires=[ 'D-ATOMIC' ], why='defect BM (del) reverted' ),
-    V( 'lone-error-reply-direct', DEVICE, "try:\n target.request( req, addr=addr )\n except Exception as exc:\n req.pop( Message_Router.SV_COD_CTX, None )\n req.pop( 'status_ext', None )\n req.service = req.get( 'service', 0 ) | 0x80\n if not req.get( 'status' ):\n req.status = 0x08 # Service not supported\n req.input = bytearray( Object.produce( req ))", "req.service	= req.get( 'service', 0 ) | 0x80\n            req.status		= 0x08\n            req.input		= bytearray( Object.produce( req ))", silent=[ 'S-LONE', 'P-REPLYBIT' ], why='the earlier, simpler form of the repair: still answers' ),
+    V( 'lone-error-reply-direct', DEVICE, "req.pop( 'status_ext', None )\n req.service = req.get( 'service', 0 ) | 0x80\n if not req.get( 'status' ):\n req.status = 0x08 # Service not supported\n if req.service == 0xD2 and req.status < 0x10:", "for k_ in ( 'status_ext', ):\n                    req.pop( k_, None )\n                req.service	= 0x80 | req.get( 'service', 0 )\n                if not req.get( 'status' ):\n                    req.status	= 0x08\n                if req.status < 0x10 and req.service in ( 0xD2, ):", silent=[ 'S-LONE', 'P-REPLYBIT' ], why='the error reply spelled differently: still answers, still with extended status for 0xD2' ),
+    V( 'string-complete-test-dropped', PARSER, "0 == data[path].length % 2 and len( data[path].string ) == data[path].length ),", "0 == data[path].length % 2 ),", fires=[ 'G-EXACT' ], why='defect BW reverted' ),
+    V( 'string-complete-test-respelled', PARSER, "0 == data[path].length % 2 and len( data[path].string ) == data[path].length ),", "not ( data[path].length - len( data[path].string )) and not data[path].length % 2 ),", silent=[ 'G-EXACT' ] ),
+    V( 'string-pad-optional', PARSER, "sbdy[None] = octets_drop( 'pad', repeat=1,\n terminal=True )", "sbdy[None]		= octets_drop(		'pad', repeat=0,\n                                                	terminal=True )", fires=[ 'G-EXACT' ] ),
+    V( 'sstring-complete-by-decision', PARSER, "leng[None] = string_bytes( 'string',\n limit='..length',\n initial='.*', decode='iso-8859-1',\n terminal=True )", "leng[None] = sbdy	= string_bytes(		'string',\n                                                        limit='..length',\n                                                        initial='.*',	decode='iso-8859-1' )\n        sbdy[None]		= decide(		'complete',\n                                    predicate=lambda path=None, data=None, **kwds: len( data[path].string ) == data[path].length,\n                                    state=octets_noop(	'done',\n                                                        terminal=True ))", silent=[ 'G-EXACT' ], why='the repair of known finding BX that the pinned transition counts forbid' ),
+    V( 'lone-standin-without-path', DEVICE, "req = dotdict( input=data.request.input, path=dotdict( segment=[] ))", "req		= dotdict( input=data.request.input )", fires=[ 'S-LONE' ], why='defect BQ reverted ( lone )' ),
+    V( 'member-standin-without-path', DEVICE, "req = dotdict( input=reqdata[beg:end], path=dotdict( segment=[] ))", "req		= dotdict( input=reqdata[beg:end] )", fires=[ 'S-LONE' ], why='defect BQ reverted ( bundle member: 01 03 91 served as Get Attributes All of the Message Router )' ),
+    V( 'lone-standin-keeps-parsed', DEVICE, "req = dotdict( input=data.request.input, path=dotdict( segment=[] ))", "req		= dotdict( data.request )", fires=[ 'S-LONE' ], why='round-7 seed C08-1 on the repaired code' ),
+    V( 'lone-standin-answered-by-target', DEVICE, "answerer = lookup( Message_Router.class_id, 1 ) or target", "answerer		= target", fires=[ 'S-LONE' ], why='defect BQ reverted ( who answers )' ),
+    V( 'lone-standin-path-stored-later', DEVICE, "req = dotdict( input=data.request.input, path=dotdict( segment=[] ))", "req		= dotdict( input=data.request.input )\n                req.path	= dotdict( segment=[] )", silent=[ 'S-LONE' ] ),
+    V( 'lone-d2-reply-without-ext', DEVICE, "if req.service == 0xD2 and req.status < 0x10:", "if False:", fires=[ 'S-LONE' ], why='defect BR2 reverted' ),
+    V( 'member-d2-reply-without-ext', DEVICE, "if r.service == 0xD2 and r.status < 0x10:", "if False:", fires=[ 'S-LONE' ] ),
+    V( 'route-retry-reverted', UCMM, "if self.route_conn.get( target ) is not route:\n continue", "assert self.route_conn.get( target ) is route", fires=[ 'P-ROUTE' ], why='defect BR reverted' ),
+    V( 'route-size-check-dropped', UCMM, "assert 2 * ( unc_send.get( 'route_path.size' ) or 0 ) \\\n == len( parser.route_path.produce( route_path or [] )) - 2, \\", "assert True, \\", fires=[ 'D-REFUSE' ], why='defect BS reverted' ),
+    V( 'route-size-check-by-words', UCMM, "assert 2 * ( unc_send.get( 'route_path.size' ) or 0 ) \\\n == len( parser.route_path.produce( route_path or [] )) - 2, \\", "assert ( unc_send.get( 'route_path.size' ) or 0 ) * 2 + 2 \\\n                                == len( parser.route_path.produce( route_path or [] )), \\", silent=[ 'D-REFUSE' ] ),
+    V( 'hparse-decode-before-comment-test', HFILES, "l = l.lstrip()\n if not l or l.startswith( b'#' ):\n l = None\n continue # blank or comment (which, alone, may hold text not in the expected encoding)\n l = l.decode( encoding or 'ascii' )", "l			= l.decode( encoding or 'ascii' ).lstrip()\n        if not l or l.startswith( '#' ):\n            l			= None\n            continue", fires=[ 'H-PARSE' ], why='defect BT reverted' ),
+    V( 'udp-client-keeps-rest-of-datagram', CLIENT, "if self.udp:\n # A datagram carries one frame: whatever follows it dies with its datagram, and is\n # never the beginning of the response that arrives in the next.\n for _ in self.source:\n pass", "pass", fires=[ 'P-ACT' ], why='defect BU reverted' ),
+    V( 'udp-client-refuses-rest-of-datagram', CLIENT, "for _ in self.source:\n pass", "assert self.source.peek() is None, 'octets follow the frame in its datagram'", silent=[ 'P-ACT' ] ),
     V( 'reply-size-unbounded', UCMM, "if len( data.get( 'enip.input', b'' )) > 0xFFFF:", "if False:", fires=[ 'E-REPLY' ], why='defect BN reverted' ),
     V( 'default-struct-handle-truthiness', PARSER, "if structure_tag is not False: # any structure_tag (handle) value, including 0", "if structure_tag:", fires=[ 'L-DEFAULT' ], why='defect BO reverted' ),
     V( 'act-udp-waits-for-more', CLIENT, "assert not self.udp, \\\n \"Incomplete UDP response from %r\" % ( addr, )\n return None", "return None", fires=[ 'P-ACT' ], why='defect BP reverted' ),
